@@ -28,6 +28,14 @@ _FLOW = '''[scheduler]
 '''
 
 
+# the same workflow with an UNLIMITED default queue (limit = 0; the default limit is 100): the queue release
+# must skip held tasks whatever the limit
+_FLOW0 = _FLOW.replace('    [[graph]]\n', '    [[queues]]\n        [[[default]]]\n            limit = 0\n    [[graph]]\n')
+# ... and with the tasks in a second unlimited queue
+_FLOWQ = _FLOW.replace('    [[graph]]\n', '    [[queues]]\n        [[[q0]]]\n            limit = 0\n'
+                       '            members = a, b\n    [[graph]]\n')
+
+
 def _cmd(name, **args):
     return {'op': 'cmd', 'name': name, 'args': args}
 
@@ -54,6 +62,20 @@ _CORPUS = {
     # point and is held at once; restart keeps hold point and held flags; release_hold_point frees everything
     'hold-point': [_cmd('set_hold_point', point='1'), _L] + _job('1/a') + [_L, _cmd('release', tasks=['2/a']), _L]
                   + _job('2/a') + [_L, _L, _STOP, _L, _R, _L, _L, _cmd('release_hold_point'), _L, _L],
+}
+
+
+# histories on the unlimited-queue variants: (flow, run options, ops)
+_CORPUS2 = {
+    'queued-then-held-limit0': (_FLOW0, {}, _CORPUS['queued-then-held']),
+    'queued-then-held-q0': (_FLOWQ, {}, _CORPUS['queued-then-held']),
+    # a hold-point command that lands on tasks sitting in the queue since start-up (2/a, 3/a)
+    'hold-point-on-queued-limit0': (_FLOW0, {}, [_cmd('set_hold_point', point='1'), _L] + _job('1/a') + [_L, _L]),
+    # hold point given at start-up (--hold-after=1): 2/a is spawned and queued before the point is applied
+    'start-hold': (_FLOW, {'holdcp': '1'}, [_L] + _job('1/a') + [_L, _L, _STOP, _L, _R, _L, _L,
+                                                                 _cmd('release_hold_point'), _L, _L]),
+    'start-hold-limit0': (_FLOW0, {'holdcp': '1'}, [_L] + _job('1/a') + [_L, _L, _STOP, _L, _R, _L, _L,
+                                                                        _cmd('release_hold_point'), _L, _L]),
 }
 
 
@@ -114,11 +136,26 @@ class C06(SchedProp):
         'p_cmd': 0.15,
         'p_hold_queued': 0.35,     # a third of the hold commands target a task sitting in a queue
         'restarts': [1, 2, 2],
+        # explicit internal queues, all UNLIMITED or far above anything reachable (the model has no queue limits):
+        # 1-3 queues with limit 0 over random member sets, the default queue with limit 0 / 0 / 100 in 60% of the cases
+        'queues': True, 'queue_limits': [0], 'p_default_limit': 0.6, 'default_queue_limits': [0, 0, 100],
+        # a hold point given at start-up (--hold-after) in 30% of the cases
+        'p_start_hold': 0.3,
     }
 
     def corpus(self):
         return [{'id': 'c06-' + k, 'flow': _FLOW, 'seed': 0, 'opts': {}, 'policy': {'restarts': 2}, 'ops': v, 'kind': 'cmd'}
-                for k, v in _CORPUS.items()]
+                for k, v in _CORPUS.items()] + [
+            {'id': 'c06-' + k, 'flow': fl, 'seed': 0, 'opts': dict(ro), 'policy': {'restarts': 2}, 'ops': v, 'kind': 'cmd'}
+            for k, (fl, ro, v) in _CORPUS2.items()]
+
+    def driver_input(self, inp, raw):
+        d = super().driver_input(inp, raw)
+        hold = (inp.get('opts') or {}).get('holdcp')
+        if hold is not None and 'crash' not in d:
+            d['start_hold'] = int(hold)       # hold point given at start-up (--hold-after)
+        return d
+
 
     def impl_batch(self, inputs):
         # a start-up time-out of the scheduler's server thread (overloaded machine) says nothing about the
@@ -158,6 +195,10 @@ class C06(SchedProp):
         ops = inp.get('ops') or []
         names = [o.get('name') for o in ops if o.get('op') == 'cmd']
         tags = [inp.get('kind', 'cmd')]
+        if (inp.get('opts') or {}).get('holdcp') is not None:
+            tags += ['start-hold', 'holdpoint']
+        if 'limit = 0' in inp.get('flow', ''):
+            tags.append('limit0')
         if any(n in ('hold',) for n in names):
             tags.append('hold')
         if 'release' in names:
